@@ -2020,3 +2020,7 @@ fn display_consensus_params(params: &tendermint::consensus::Params) -> String {
             .map_or_else(unset, |height| height.to_string()),
     )
 }
+
+#[cfg(all(test, feature = "verif"))]
+#[path = "/verif/harness/sequencer/app_mc.rs"]
+mod verif_app;
